@@ -31,8 +31,44 @@ def decide_equal(ctx, rule, key, where, code, spec, what=""):
     op = opaque_parts(code)
     if op:
         raise AnalysisError(f"{where}: [{rule}] {key}: value not normalisable ({T.show(op[0])[:120]}) - re-bind the anchor")
-    ctx.violation(rule, key, where, f"{what} is {T.show(code_a)[:400]}  but the statement requires {T.show(spec_a)[:400]}")
+    # Inequality of normal forms is inequality of functions only inside the interpreted fragment (polynomials, booleans, the
+    # normalised containers); uninterpreted applications compare syntactically.  So a difference is REPORTED only when the code value
+    # is written in the vocabulary of the statement's formula (same function symbols, attributes and constructors - a wrong index,
+    # operand, constant or a dropped term); a value that brings symbols of its own (another library call, a closure, a keyword the
+    # formula does not have) may well be the same function spelled differently: that is 'cannot decide', not a violation.
+    extra = vocabulary(cu) - vocabulary(su) - vocabulary(spec_a)
+    foreign = sorted(x for x in extra if _is_spelling_symbol(ctx.repo, x))
+    if foreign and len(foreign) == len(extra):
+        raise AnalysisError(f"{where}: [{rule}] {key}: value uses symbols the statement's formula does not have ({', '.join(foreign)[:160]}); "
+                            f"it may be the same function spelled differently - re-bind the anchor")
+    ctx.violation(rule, key, where, f"{what} is {T.show(code_a)[:400]}  but the statement requires {T.show(spec_a)[:400]}", soft=True)
     return False
+
+
+def _is_spelling_symbol(repo, sym_):
+    """library calls, builtin / method names and keyword names can respell the same function; an attribute the formula does not read,
+    or a package function it does not call, is different DATA (a cache, another list) and stays a reportable difference"""
+    if sym_.startswith("kw:"):
+        return True
+    if sym_.startswith("call:"):
+        name = sym_[5:]
+        return name not in repo.functions and not name.startswith("new:")
+    return False
+
+
+def vocabulary(t):
+    """function symbols, method names, attribute names and keyword names of a term (constants, variables and structure excluded)"""
+    out = set()
+    for x in T.subterms(t):
+        if x[0] == "call":
+            out.add("call:" + (x[1] if isinstance(x[1], str) else ".".join(map(str, x[1]))))
+            for k, _ in (x[3] or ()):
+                out.add("kw:" + str(k))
+        elif x[0] == "attr":
+            out.add("attr:" + str(x[2]))
+        elif x[0] in ("mod", "fn", "cls", "lambda"):
+            out.add(x[0] + ":" + str(x[1]) if x[0] != "lambda" else "lambda")
+    return out
 
 
 _pure_cache = {}
@@ -66,7 +102,7 @@ def pure_body(repo, qualname):
     return out
 
 
-def unfold(repo, t, depth=2):
+def unfold(repo, t, depth=6):
     """replace calls of pure package functions by their bodies (bounded depth)"""
     if depth == 0:
         return t
